@@ -2635,6 +2635,8 @@ pub mod macros {
 /// The attribute rewriters of `attr.rs` on the attribute lists of a parsed snippet
 /// (`src/verif_hooks/attrs.rs`).
 pub mod attrs;
+/// What `parse_cfg_if` / `parse_cfg_match` collect from the macro calls of a text.
+pub mod cfgif;
 /// The type, bound and where-predicate rewriters of `types.rs` at a given shape
 /// (`src/verif_hooks/types.rs`).
 pub mod types;
